@@ -559,7 +559,8 @@ def attribute_patterns(ctx):
                     m = match_obj({'cmp': op, 'case': case, 'attr_ns': None, 'attr_name': attr, 'value': token if op else None})
                     sel = fresh_sel()
                     ws_hit = lambda v: Obj(_name='m') if any(c in v for c in ' \t\r\n\f') else None    # noqa: E731
-                    stubs = {'re.compile': rc, 'RE_WS.search': ws_hit, 'css_parser._Selector': lambda **kw: fresh_sel(),
+                    stubs = {'re.compile': rc, 'RE_WS.search': ws_hit, 're.Pattern.search': lambda rx_obj, v, *a_: ws_hit(v),
+                             'css_parser._Selector': lambda **kw: fresh_sel(),
                              'css_parser.css_unescape': ref_css_unescape, 'css_unescape': ref_css_unescape}
                     try:
                         call_function(ctx, 'css_parser.CSSParser.parse_attribute_selector', [sel, m, False], {}, stubs, parser_obj())
@@ -1080,34 +1081,64 @@ def list_context_table(ctx, rule):
 
 # ---- one simple selector alone is a selector --------------------------------------------------------------------------------
 def single_token_table(ctx, rule):
-    """parse_selectors on a token sequence that consists of ONE simple selector of each kind: the compound it builds
-    counts as a selector (no "expected a selector" error, exactly one alternative, the constraint recorded)."""
+    """parse_selectors on a token sequence that consists of ONE simple selector of each kind the tokenizer can produce: the
+    compound it builds counts as a selector (no "expected a selector" error, exactly one alternative, the constraint recorded).
+    The stand-in match objects carry exactly the groups the token's regex defines, so a handler that reads a group the regex
+    does not have fails the row.  Token kinds that can never stand alone (combinator, closing parenthesis) or are refused by
+    design (@rule, ::pseudo-element) must raise; a token kind the table does not know is an analysis error."""
+    import re._parser as sp
     pmod, pfn = ctx.src.func('css_parser.CSSParser.parse_selectors')
     sl = Obj(_cls='css_types.SelectorList', _name='COMPILED_CUSTOM', selectors=(), is_not=False, is_html=False, __iter__=[], __len__=0)
+    real_groups = {r.name.split(':', 1)[1]: set(sp.parse(r.pattern, r.flags).state.groupdict)
+                   for r in ctx.consts.regexes if r.kind in ('token', 'special-token')}
 
     def values(text):
         return lambda rx_obj, s, *a: [match_obj({'value': text, 'split': None, 0: text})]
-    cases = [
-        ('tag', tok('tag', whole='a', tag_ns=None, tag_name='a'), 'tag', {}),
-        ('id', tok('id', whole='#a'), 'ids', {}),
-        ('class', tok('class', whole='.a'), 'classes', {}),
-        ('attribute', tok('attribute', whole='[a]', cmp=None, case=None, attr_ns=None, attr_name='a', value=None), 'attributes', {}),
-        ('pseudo_class :root', tok('pseudo_class', whole=':root', name=':root', open=None), 'flags', {}),
-        ('pseudo_class :checked', tok('pseudo_class', whole=':checked', name=':checked', open=None), 'selectors', {}),
-        ('pseudo_class :first-child', tok('pseudo_class', whole=':first-child', name=':first-child', open=None), 'nth', {}),
-        ('pseudo_class_custom', tok('pseudo_class_custom', whole=':--x', name=':--x'), 'selectors', {}),
-        ('pseudo_contains', tok('pseudo_contains', whole=':-soup-contains(a)', name=':-soup-contains', values='a'), 'contains',
-         {'re.Pattern.finditer': values('a')}),
-        ('pseudo_lang', tok('pseudo_lang', whole=':lang(en)', name=':lang', values='en'), 'lang', {'re.Pattern.finditer': values('en')}),
-        ('pseudo_dir', tok('pseudo_dir', whole=':dir(ltr)', name=':dir', dir='ltr'), 'flags', {}),
-        ('amp', tok('amp', whole='&'), 'flags', {}),
-    ]
-    recorded = []
 
-    def freeze_stub(**kw):
-        return None
-    for what, token, field, extra in cases:
+    def rtok(key, whole, **given):
+        """(key, match stand-in with the regex's own groups), groups of the case that the regex no longer has."""
+        real = real_groups.get(key)
+        if real is None:
+            return None, set()
+        g = {k: given.get(k) for k in real}
+        g[0] = whole
+        return (key, match_obj(g, name=key, end=len(whole))), set(given) - real
+    cases = [
+        ('tag', ('tag', 'a', dict(tag_ns=None, tag_name='a')), 'tag', {}),
+        ('id', ('id', '#a', {}), 'ids', {}),
+        ('class', ('class', '.a', {}), 'classes', {}),
+        ('attribute', ('attribute', '[a]', dict(cmp=None, case=None, attr_ns=None, attr_name='a', value=None)), 'attributes', {}),
+        ('pseudo_class :root', ('pseudo_class', ':root', dict(name=':root', open=None)), 'flags', {}),
+        ('pseudo_class :checked', ('pseudo_class', ':checked', dict(name=':checked', open=None)), 'selectors', {}),
+        ('pseudo_class :first-child', ('pseudo_class', ':first-child', dict(name=':first-child', open=None)), 'nth', {}),
+        ('pseudo_class_custom', ('pseudo_class_custom', ':--x', dict(name=':--x')), 'selectors', {}),
+        ('pseudo_contains', ('pseudo_contains', ':-soup-contains(a)', dict(name=':-soup-contains', values='a', open='(')), 'contains',
+         {'re.Pattern.finditer': values('a')}),
+        ('pseudo_lang', ('pseudo_lang', ':lang(en)', dict(name=':lang', values='en', open='(')), 'lang', {'re.Pattern.finditer': values('en')}),
+        ('pseudo_dir', ('pseudo_dir', ':dir(ltr)', dict(name=':dir', dir='ltr', open='(')), 'flags', {}),
+        ('pseudo_nth_child', ('pseudo_nth_child', ':nth-child(2n+1)', dict(name=':nth-child', nth_child='2n+1', of=None, open='(',
+                                                                            pseudo_nth_child=':nth-child(2n+1')), 'nth',
+         {'re.Pattern.match': lambda rx_obj, s, *a: match_obj({'s1': None, 'a': '2n', 's2': '+', 'b': '1', 0: s})}),
+        ('pseudo_nth_type', ('pseudo_nth_type', ':nth-of-type(2n+1)', dict(name=':nth-of-type', nth_type='2n+1', open='(',
+                                                                            pseudo_nth_type=':nth-of-type(2n+1')), 'nth',
+         {'re.Pattern.match': lambda rx_obj, s, *a: match_obj({'s1': None, 'a': '2n', 's2': '+', 'b': '1', 0: s})}),
+        ('amp', ('amp', '&', {}), 'flags', {}),
+        # never a selector on their own
+        ('combine', ('combine', '>', dict(relation='>')), 'raises', {}),
+        ('pseudo_close', ('pseudo_close', ')', {}), 'raises', {}),
+        ('at_rule', ('at_rule', '@media', {}), 'raises', {}),
+        ('pseudo_element', ('pseudo_element', '::before', dict(name='::before', open=None)), 'raises', {}),
+    ]
+    unknown = sorted(set(real_groups) - {c[1][0] for c in cases})
+    if unknown:
+        raise AnalysisError(f'the tokenizer produces token kind(s) {unknown} the single-token table has no row for')
+    for what, (key, whole, given), field, extra in cases:
+        token, stale = rtok(key, whole, **given)
+        if token is None:
+            rule.note(f'token kind {key!r} is not produced by the tokenizer of this tree: row skipped')
+            continue
         stubs = dict(extra)
+        raised = None
         try:
             it = iter([token])
 
@@ -1116,13 +1147,15 @@ def single_token_table(ctx, rule):
                     return next(x)
                 except StopIteration:
                     raise Raised('StopIteration')
-            stubs.update({'next': nxt, 'css_parser._Selector': lambda **kw: tables._sel_with(kw)})
+            stubs.update({'next': nxt, 'css_parser._Selector': lambda **kw: tables._sel_with(kw),
+                          'css_types.SelectorNth': lambda *a_, **k_: Obj(_name='SelectorNth'),
+                          'css_parser.CSS_NTH_OF_S_DEFAULT': sl})
             res = call_function(ctx, 'css_parser.CSSParser.parse_selectors', [it, 0, 0], {}, stubs,
                                 parser_obj(custom={':--x': sl}))
             out = describe_selector(res)
             alts = out['list'] if isinstance(out, dict) else None
             got = f'{len(alts)} alternative(s)' if alts is not None else repr(out)
-            ok = alts is not None and len(alts) == 1 and alts[0] != 'NULL'
+            ok = alts is not None and len(alts) == 1 and alts[0] != 'NULL' and field != 'raises'
             if ok:
                 a = alts[0]
                 raw = res.get('selectors')[0]
@@ -1132,16 +1165,27 @@ def single_token_table(ctx, rule):
                 ok = present.get(field, False)
                 got += f', {field} {"recorded" if ok else "EMPTY"}'
         except Raised as e:
-            ok, got = False, f'raises {e.exc_name}' + (f' {e.args_[0]!r}' if e.args_ and isinstance(e.args_[0], str) else '')
+            raised = e.exc_name
+            ok = field == 'raises' and e.exc_name in ('SelectorSyntaxError', 'NotImplementedError')
+            got = f'raises {e.exc_name}' + (f' {e.args_[0]!r}' if e.args_ and isinstance(e.args_[0], str) else '')
         except Unsupported as e:
             raise AnalysisError(f'parse_selectors on one {what} token: outside the evaluable fragment: {e}')
+        if not ok and stale and raised != 'IndexError':
+            raise AnalysisError(f'the {key} token pattern no longer defines the group(s) {sorted(stale)} the single-token table fills in '
+                                f'(table out of date): {got}')
         rule.instance({'single_token': what, 'outcome': got}, key='single|' + what)
         rule.obligation(ok)
         if not ok:
-            rule.violation(f'css_parser.CSSParser.parse_selectors single {what}', pmod.where(pfn),
-                           f'a selector that consists of one {what} simple selector alone: {got}; it must compile to one alternative with '
-                           f'its {field} recorded. A handler that does not report "a selector was seen" makes such a compound a syntax '
-                           f'error in ordinary lists and an empty (never matching) slot in forgiving lists like :is()')
+            if field == 'raises':
+                rule.violation(f'css_parser.CSSParser.parse_selectors single {what}', pmod.where(pfn),
+                               f'a selector that consists of one {what} token alone: {got}; it must be refused with SelectorSyntaxError / '
+                               f'NotImplementedError - a token that is silently skipped changes the meaning of the selector around it')
+            else:
+                rule.violation(f'css_parser.CSSParser.parse_selectors single {what}', pmod.where(pfn),
+                               f'a selector that consists of one {what} simple selector alone: {got}; it must compile to one alternative with '
+                               f'its {field} recorded. A token kind without a handler (or a handler that reads a group its pattern does not '
+                               f'define, or does not report "a selector was seen") makes such a compound a syntax error in ordinary lists '
+                               f'and an empty (never matching) slot in forgiving lists like :is()')
 
 
 # ---- :dir(): directionality per the HTML Standard ---------------------------------------------------------------------------
@@ -2350,3 +2394,235 @@ def relations_table(ctx, rule):
                        f'match_relations with combinator {r!r} ({cname}) on element <{el}> {problem}: a combinator relates an element '
                        f'only to other ELEMENTS in the stated position (the BeautifulSoup document object, text and comments are not '
                        f'elements; "*  > html" must not match)')
+
+
+
+def select_walk_table(ctx, rule):
+    """CSSMatch.select() with a matcher that accepts every element, from several targets of an abstract tree (text, comments,
+    CDATA between the elements; a target with following siblings; the document object; a leaf): the result is the list of
+    element descendants of the target in document order."""
+    fnq = 'css_match.CSSMatch.select'
+    mod, fn = ctx.src.func(fnq)
+    doc, order, L = build_tree([('#doctype', 'html'), ('html', {'_label': 'root'}, [
+        ('head', {'_label': 'head'}, [('title', {}, ['t'])]), ' ',
+        ('body', {'_label': 'body'}, ['x', ('div', {'_label': 'd'}, [('p', {}, [('b', {}, ['y']), ('#comment', 'c')]), 'z', ('p', {}, [])]),
+                                      ('#cdata', 'q'), ('ul', {'_label': 'ul'}, [('li', {'_label': 'leaf'}, [])]), ('p', {'_label': 'after'}, [])])])])
+
+    def desc(n):
+        out = []
+        for c in n.get('contents'):
+            if not isinstance(c, TextNode):
+                out.append(c)
+                out += desc(c)
+        return out
+    lab = lambda n: object.__getattribute__(n, '_name')      # noqa: E731
+    bad = None
+    for what, target in (('the root element', L['root']), ('an inner element with following siblings', L['d']), ('a leaf', L['leaf']),
+                         ('the document object', doc), ('the last child of its parent', L['after']), ('head', L['head'])):
+        me = real_matcher(ctx, target)
+        try:
+            got = list(call_function(ctx, fnq, [0], {}, {'css_match.CSSMatch.match': lambda el: True, 'util.lower': strict_lower,
+                                                         'css_match.CSSMatch.supports_namespaces': lambda: False}, me))
+        except Raised as e:
+            got = f'raises {e.exc_name}'
+        except Unsupported as e:
+            raise AnalysisError(f'CSSMatch.select: outside the evaluable fragment: {e}')
+        exp = desc(target)
+        ok = isinstance(got, list) and len(got) == len(exp) and all(a is b for a, b in zip(got, exp))
+        rule.instance({'target': what, 'yielded': got if isinstance(got, str) else [lab(x) if isinstance(x, Obj) else repr(x) for x in got],
+                       'expected': [lab(x) for x in exp], 'ok': ok}, key=f'select-walk|{what}')
+        if not ok and bad is None:
+            bad = (what, got, exp)
+    rule.obligation(bad is None)
+    if bad is not None:
+        what, got, exp = bad
+        rule.violation('css_match.CSSMatch.select walk', mod.where(fn),
+                       f'CSSMatch.select() from {what}, every element accepted, yields '
+                       f'{got if isinstance(got, str) else [lab(x) if isinstance(x, Obj) else repr(x) for x in got]}; the element descendants of the '
+                       f'target in document order are {[lab(x) for x in exp]} (the target itself, its siblings and non-element nodes are '
+                       f'never candidates)')
+
+
+
+def closest_filter_table(ctx, rule):
+    """CSSMatch.closest() / CSSMatch.filter() on an abstract tree, the per-element verdict supplied by a stand-in for match()."""
+    mod = ctx.src.mod('css_match')
+    doc, order, L = build_tree([('html', {'_label': 'root'}, [('body', {'_label': 'body'}, [
+        ('div', {'_label': 'outer'}, ['t', ('div', {'_label': 'inner'}, [('#comment', 'c'), ('p', {'_label': 'p'}, [('b', {'_label': 'b'}, [])]), 'u',
+                                                                       ('span', {'_label': 'span'}, [])]), ('i', {'_label': 'sib'}, [])])])])])
+    lab = lambda n: None if n is None else (object.__getattribute__(n, '_name') if isinstance(n, Obj) else repr(n))      # noqa: E731
+    chain = [L['p'], L['inner'], L['outer'], L['body'], L['root']]
+    bad = None
+    for fnq, cases in (
+            ('css_match.CSSMatch.closest', [(L['p'], set(ms), next((n for n in chain if lab(n) in ms), None))
+                                            for ms in ((), ('<p>',), ('<inner>',), ('<outer>', '<root>'), ('<p>', '<body>'), ('<root>',), ('<b>', '<sib>', '<span>'))]),
+            ('css_match.CSSMatch.filter', [(L['inner'], set(ms), [n for n in (L['p'], L['span']) if lab(n) in ms])
+                                           for ms in ((), ('<p>',), ('<span>',), ('<p>', '<span>', '<b>', '<inner>'), ('<b>',))])):
+        if not ctx.src.try_func(fnq):
+            rule.note(f'{fnq} does not exist on this tree: the entry point is decided by the SoupSieve method table alone')
+            continue
+        fmod, fn = ctx.src.func(fnq)
+        for target, ms, exp in cases:
+            me = real_matcher(ctx, target)
+            try:
+                got = call_function(ctx, fnq, [], {}, {'css_match.CSSMatch.match': lambda el, _ms=ms: lab(el) in _ms, 'util.lower': strict_lower,
+                                                      'css_match.CSSMatch.supports_namespaces': lambda: False}, me)
+                if fnq.endswith('filter'):
+                    got = list(got)
+            except Raised as e:
+                got = f'raises {e.exc_name}'
+            except Unsupported as e:
+                raise AnalysisError(f'{fnq}: outside the evaluable fragment: {e}')
+            if isinstance(exp, list):
+                ok = isinstance(got, list) and len(got) == len(exp) and all(a is b for a, b in zip(got, exp))
+            else:
+                ok = got is exp
+            show = (lambda v: v if isinstance(v, str) else ([lab(x) for x in v] if isinstance(v, list) else lab(v)))
+            rule.instance({'function': fnq.split('.')[-1], 'target': lab(target), 'match_accepts': sorted(ms), 'result': show(got),
+                           'expected': show(exp), 'ok': ok}, key=f'{fnq}|{sorted(ms)}')
+            if not ok and bad is None:
+                bad = (fnq, fmod.where(fn), lab(target), sorted(ms), show(got), show(exp))
+    rule.obligation(bad is None)
+    if bad is not None:
+        fnq, where, target, ms, got, exp = bad
+        rule.violation(f'{fnq} table', where,
+                       f'{fnq.split(".", 1)[1]}() from target {target} when match() accepts exactly {ms}: result {got}, expected {exp} '
+                       + ('(the nearest of the target and its ancestors that match() accepts, else None)' if fnq.endswith('closest') else
+                          '(the element children of the target that match() accepts, in order)'))
+
+
+
+def list_facts_table(ctx, rule):
+    """The list-level facts of a compiled selector list (is_html: evaluate only in HTML documents / with the HTML namespace map;
+    is_not) as a function of the list's own parse flags: parse_selectors is interpreted on `a , a<E>` for every kind of simple
+    selector E (each parameterless pseudo-class, :dir(), :lang(), :-soup-contains(), a custom pseudo-class, id, class, attribute):
+    whatever E is, the list must come out with is_html == bool(flags & FLG_HTML) and is_not == bool(flags & FLG_NOT) - a fact of
+    the whole list that one alternative can switch on changes how its sibling alternatives are evaluated, and "A, B" is then no
+    longer the union of A and B."""
+    pmod, pfn = ctx.src.func('css_parser.CSSParser.parse_selectors')
+    F = _flags(ctx)
+    sl = Obj(_cls='css_types.SelectorList', _name='COMPILED_CUSTOM', selectors=(), is_not=False, is_html=False, __iter__=[], __len__=0)
+
+    def values(text):
+        return lambda rx_obj, s_, *a: [match_obj({'value': text, 'split': None, 0: text})]
+    extras = [(name, tok('pseudo_class', whole=name, name=name, open=None), {}) for name in sorted(ctx.consts.const('css_parser', 'PSEUDO_SIMPLE'))]
+    extras += [
+        (':dir(ltr)', tok('pseudo_dir', whole=':dir(ltr)', name=':dir', dir='ltr', open='('), {}),
+        (':lang(en)', tok('pseudo_lang', whole=':lang(en)', name=':lang', values='en', open='('), {'re.Pattern.finditer': values('en')}),
+        (':-soup-contains(a)', tok('pseudo_contains', whole=':-soup-contains(a)', name=':-soup-contains', values='a', open='('),
+         {'re.Pattern.finditer': values('a')}),
+        (':--x', tok('pseudo_class_custom', whole=':--x', name=':--x'), {}),
+        ('#i', tok('id', whole='#i'), {}), ('.c', tok('class', whole='.c'), {}),
+        ('[href]', tok('attribute', whole='[href]', cmp=None, case=None, attr_ns=None, attr_name='href', value=None), {}),
+    ]
+    n = 0
+    for flags, fname in ((0, 'no flags'), (F['FLG_HTML'], 'FLG_HTML')):
+        for text, token, extra in extras:
+            toks = [_tag('a'), _comb(','), _tag('a'), token]
+            it = iter(toks)
+
+            def nxt(x):
+                try:
+                    return next(x)
+                except StopIteration:
+                    raise Raised('StopIteration')
+            stubs = dict(extra)
+            stubs.update({'next': nxt, 'css_parser._Selector': lambda **kw: tables._sel_with(kw),
+                          'css_types.SelectorNth': lambda *a_, **k_: Obj(_name='SelectorNth')})
+            try:
+                res = call_function(ctx, 'css_parser.CSSParser.parse_selectors', [it, 0, flags], {}, stubs, parser_obj(custom={':--x': sl}))
+                got = (bool(res.get('is_html')), bool(res.get('is_not')))
+            except Raised as e:
+                got = f'raises {e.exc_name}'
+            except Unsupported as e:
+                raise AnalysisError(f'parse_selectors on `a, a{text}`: outside the evaluable fragment: {e}')
+            exp = (bool(flags & F['FLG_HTML']), False)
+            n += 1
+            rule.instance({'selector': f'a, a{text}', 'parse_flags': fname, '(is_html, is_not)': got, 'expected': exp},
+                          key=f'facts|{fname}|{text}', sample_cap=8)
+            rule.obligation(got == exp)
+            if got != exp:
+                rule.violation(f'parse_selectors list facts of `a, a{text}`' + ('' if not flags else f' under {fname}'), pmod.where(pfn),
+                               f'the list `a, a{text}` parsed with {fname} comes out with (is_html, is_not) = {got}, expected {exp}: the simple '
+                               f'selector {text} of one alternative changes a fact of the WHOLE list, so the sibling alternative `a` is '
+                               f'evaluated in a different context (HTML documents only, HTML namespace map, no iframe crossing) than when it '
+                               f'stands alone, and "A, B" is no longer the union of A and B')
+    if n < 20:
+        raise AnalysisError('list facts table: fewer than 20 rows (PSEUDO_SIMPLE not found?)')
+
+
+
+def resolve_compile_sites(ctx):
+    """Second-stage resolution of re.compile sites the constant folder left unresolved, for the attribute-selector parser.
+
+    parse_attribute_selector is interpreted for every operator and case flag with marker values: a plain marker (re.escape
+    leaves it as it is), a hostile value full of regex metacharacters, the empty value and a value with white space.  If every
+    pattern handed to re.compile is `A + re.escape(value) + B` for parts A, B that do not depend on the value (or a constant
+    pattern), the site is entered into the regex inventory as the templates (A, <escaped hole>, B) and constants observed, and
+    is no longer listed as unresolved.  Anything else stays unresolved."""
+    from ..constfold import Opaque, Rx
+    inv = ctx.consts
+    todo = [u for u in inv.unresolved if u[1] == 'css_parser.CSSParser.parse_attribute_selector']
+    if not todo:
+        return
+    pmod, pfn = ctx.src.func('css_parser.CSSParser.parse_attribute_selector')
+    sites = [c for c in ast.walk(pfn) if isinstance(c, ast.Call) and ast.unparse(c.func) == 're.compile' and pmod.where(c) in {u[0] for u in todo}]
+    if len(sites) != 1:
+        return
+    site = sites[0]
+    M1, M2, HOSTILE = 'Qq9Zz', 'Ww7Kk', 'x.*+?(y)[z]|^$'
+    templates, consts = set(), set()
+    ok = True
+    for op in ('=', '!=', '^=', '$=', '*=', '~=', '|='):
+        for case in (None, 'i', 's'):
+            for attr in ('href', 'type'):
+                seen = {}
+                for value in (M1, M2, HOSTILE, '', 'a b'):
+                    compiled = []
+
+                    def rc(pat, flags=0, _c=compiled):
+                        o = Obj(_name='re', pattern=pat, flags=flags, __isa__=('re.Pattern',))
+                        _c.append(o)
+                        return o
+                    token = '"' + value.replace('"', '') + '"'
+                    m = match_obj({'cmp': op, 'case': case, 'attr_ns': None, 'attr_name': attr, 'value': token})
+                    ws_hit = lambda v, *a_: Obj(_name='m') if any(c in v for c in ' \t\r\n\f') else None    # noqa: E731
+                    stubs = {'re.compile': rc, 'RE_WS.search': ws_hit, 're.Pattern.search': lambda rx_obj, v, *a_: ws_hit(v),
+                             'css_parser._Selector': lambda **kw: fresh_sel(),
+                             'css_parser.css_unescape': lambda t, string=False: t, 'css_unescape': lambda t, string=False: t}
+                    try:
+                        call_function(ctx, 'css_parser.CSSParser.parse_attribute_selector', [fresh_sel(), m, False], {}, stubs, parser_obj())
+                    except (Unsupported, Raised):
+                        return
+                    seen[value] = [(o.get('pattern'), o.get('flags')) for o in compiled]
+                n = len(seen[M1])
+                if any(len(v) != n for v in seen.values()):
+                    return
+                for i in range(n):
+                    p1, f1 = seen[M1][i]
+                    if not isinstance(p1, str):
+                        return
+                    if M1 in p1:
+                        if p1.count(M1) != 1:
+                            return
+                        a, b = p1.split(M1)
+                        # the same parts for another marker, and the hostile value enters escaped
+                        if seen[M2][i][0] != a + M2 + b or seen[HOSTILE][i][0] != a + re.escape(HOSTILE) + b:
+                            ok = False
+                        templates.add((a, b, int(f1) if isinstance(f1, int) else -1))
+                        for special in ('', 'a b'):
+                            ps_, fs_ = seen[special][i]
+                            if ps_ != a + re.escape(special) + b:
+                                consts.add((ps_, int(fs_) if isinstance(fs_, int) else -1))
+                    else:
+                        consts.add((p1, int(f1) if isinstance(f1, int) else -1))
+    if not ok or not templates:
+        return
+    where = pmod.where(site)
+    for i, (a, b, fl) in enumerate(sorted(templates)):
+        inv.regexes.append(Rx(f'css_parser.CSSParser.parse_attribute_selector:template:{a}..{b}#i{i}', (a, Opaque('re.escape(value)'), b), fl,
+                              'css_parser', where, 'template', site, 'CSSParser.parse_attribute_selector'))
+    for i, (p_, fl) in enumerate(sorted(consts)):
+        inv.regexes.append(Rx(f'css_parser.CSSParser.parse_attribute_selector:const#{i}', p_, fl if fl >= 0 else 0, 'css_parser', where,
+                              'instance', site, 'CSSParser.parse_attribute_selector'))
+    inv.unresolved = [u for u in inv.unresolved if u not in todo]
